@@ -6,7 +6,7 @@ import sys
 import numpy as np
 from bounded import gen as G
 from bounded import tdmsbuild as B
-from bounded.fw import (Result, runner, SEED, BUDGET, TIER, HERE, file_script, read_channels, compare_file,
+from bounded.fw import (Result, runner, SEED, BUDGET, TIER, HERE, file_script, read_channels, compare_file, compare_lazy,
                          gen_cases, sig_of)
 
 # ---------------------------------------------------------------------------------------------- C01 / C02 / C15
@@ -42,6 +42,7 @@ def run_C02():
                  {"segments": len(segs), "sizes": {k: len(v) for k, v in encs.items()}})
         for st, data in encs.items():
             compare_file(res, "c02/" + st, data, exp)
+            compare_lazy(res, "c02/" + st, data, exp)
     # forbidden encodings
     root = [{"path": "/", "index": "none"}]
     bad = {
@@ -293,14 +294,14 @@ def run_C05():
                 hist = []
                 bad = None
                 for step in range(12):
-                    op = rng.choice(["index", "slice", "window", "newgen", "newfilegen", "next", "next"])
+                    op = rng.choice(["index", "index", "slice", "window", "newgen", "newfilegen", "next", "next"])
                     gc = rng.choice(chans)
                     full = fresh[gc[0]][gc[1]][:]
                     n = len(full)
                     ch = f[gc[0]][gc[1]]
                     try:
                         if op == "index" and n:
-                            i = rng.randrange(n)
+                            i = rng.randrange(-n, n)          # negative indices count from the end
                             hist.append(("index", gc, i))
                             if not eq_arr(np.array([ch[i]]), np.array([full[i]])):
                                 bad = hist[-1]
